@@ -457,11 +457,29 @@ class ExprMixin:
             return base[idx]
         raise Unsupported(f"{self.frame.qualname}:{self.line(node)} subscript on {base!r}")
 
+    def concretize(self, v, candidates=None):
+        """A symbolic string whose value is forced by the path condition, as a python str (or None)."""
+        if not isinstance(v, SStr):
+            return v if isinstance(v, str) else None
+        from .values import _STR
+        for s_ in (candidates if candidates is not None else list(_STR)):
+            if self.ctx.entails(v.t == intern(s_)):
+                return s_
+        return None
+
     def dict_get(self, d, key, node):
         if not is_sym(key):
             if key in d:
                 return d[key]
             self.raise_py(KeyError, node)
+        c = self.concretize(key, list(k for k in d if isinstance(k, str)))
+        if c is not None:
+            return d[c]
+        if self.ctx.spec_mode:
+            res = None
+            for k in reversed(list(d)):
+                res = d[k] if res is None else self.merge(zb(eq(key, k, self.ctx)), d[k], res)
+            return res
         for k in d:
             if self.ctx.branch(zb(eq(key, k, self.ctx))):
                 return d[k]
@@ -485,6 +503,12 @@ class ExprMixin:
             return out
         if gen.ifs:
             raise Unsupported("filtered comprehension over a symbolic list")
+        if isinstance(it.elem, TOpaque) and not self.ctx.spec_mode:
+            # opaque elements (e.g. lazy argument objects): the element expression is abstracted to an
+            # uninterpreted function of the element; its calls are assumed not to touch modelled state
+            j = z3.Int("cj")
+            fn = z3.Function(f"comp!{self.line(node)}", it.elem.sort(), it.elem.sort())
+            return SList(it.len, z3.Lambda([j], fn(it.arr[j])), it.elem)
         j = self.ctx.fresh("cj", z3.IntSort())
         saved = dict(self.frame.env)
         self.assign(gen.target, it.elem.wrap(it.arr[j]))
@@ -502,6 +526,26 @@ class ExprMixin:
         return SList(it.len, z3.Lambda([j], ety.unwrap(v, self.ctx)), ety)
 
     ev_GeneratorExp = ev_ListComp
+
+    def ev_DictComp(self, node):
+        gen = node.generators[0]
+        it = self.ev(gen.iter)
+        if isinstance(it, SOpaque):
+            # elements are opaque: the comprehension's value is an opaque mapping
+            return SOpaque(self.ctx.fresh("dictcomp", it.t.sort()), "any")
+        it = self.iterable(it, node)
+        if isinstance(it, (list, tuple)):
+            out = {}
+            saved = dict(self.frame.env)
+            for x in it:
+                self.assign(gen.target, x)
+                k = self.ev(node.key)
+                if is_sym(k):
+                    raise Unsupported("symbolic key in a dict comprehension")
+                out[k] = self.ev(node.value)
+            self.frame.env = saved
+            return out
+        raise Unsupported("dict comprehension over a symbolic list")
 
     def iterable(self, v, node):
         """Normalise something iterable to a python list or an SList."""
@@ -525,9 +569,18 @@ class ExprMixin:
         return self.getattr(base, node.attr, node)
 
     def getattr(self, base, attr, node=None):
+        if isinstance(attr, SStr) and isinstance(base, SOpaque):
+            return base.getattr(self, attr, node)
+        if isinstance(attr, SStr):
+            c = self.concretize(attr)
+            if c is None:
+                raise Unsupported(f"{self.frame.qualname}:{self.line(node)} attribute with a symbolic name")
+            attr = c
         if isinstance(base, SObj):
             if attr in base.fields:
                 return base.fields[attr]
+            if attr == "__class__":
+                return self.real_class(base.cls)
             if self.src.class_has_method(base.cls, attr):
                 fn = self.src.find(base.cls + "." + attr)[0]
                 if any(isinstance(d, ast.Name) and d.id == "property" for d in fn.decorator_list):
@@ -546,7 +599,7 @@ class ExprMixin:
         h = getattr(base, "getattr", None)
         if h is not None and is_sym(base):
             return h(self, attr, node)
-        if isinstance(base, (list, dict, str, tuple, SList, SStr, set)):
+        if isinstance(base, (list, dict, str, tuple, SList, SStr, set)) or (is_sym(base) and hasattr(base, "method")):
             return BoundMethod(base, attr)
         if inspect.ismodule(base) or inspect.isclass(base):
             return getattr(base, attr)
